@@ -27,7 +27,7 @@ ASSUMPTIONS = ["tolerance(iii) = 10 x (measured max coefficient error) x sqrt(nn
                "instances where force balance does not determine the tensions up to scale (nullity != 1) give no verdict",
                "with k=0 resampling is taken with replace_short_edges=False (contracting border edges moves the far end of inferred interfaces)",
                "a two-point interface of a Moebius image is a chord, not an arc: k=0 is only combined with straight tissues"]
-REQUIRED_TAGS = {"all": ["verdict", "resampled", "solver:lsq", "solver:lsq_linear", "fit:taubinSVD", "straight", "curved", "path:inv", "path:nnls-fallback", "subtissue_verdict", "major_arc", "mixed_point_counts", "verdict_with_negatives_allowed", "live_translation"]}
+REQUIRED_TAGS = {"all": ["verdict", "resampled", "solver:lsq", "solver:lsq_linear", "fit:taubinSVD", "straight", "curved", "path:inv", "path:nnls-fallback", "subtissue_verdict", "major_arc", "mixed_point_counts", "verdict_with_negatives_allowed", "live_translation", "after_other_objects"]}
 
 
 def judge(at, cm, r, method, fit, viol, known, tags, neg=False):
@@ -412,6 +412,29 @@ def eval_live(d):
             "nontrivial": verdict, "outdom": not verdict}
 
 
+def eval_after_others(d):
+    """another ForSys object of the same tissue (same ids) is built with a strict angle limit and solved first; the judged inference
+    then runs on freshly built objects with no limit. Nothing of the first object may reach the second (class attributes, mutable
+    defaults, module globals)."""
+    import forsys as fs
+    from checks import c10
+    base, mobspec, fit, solver = d["base"], d["mob"], d["fit"], d["solver"]
+    at = bases.get(base)
+    cm = SC.make_cmap(mobspec, d["rot"], (0, 0), 1.0, SC.extent_of(at))
+    lim = c10.angle_limit_for(at, cm)
+    with fsutil.quiet():
+        v, e, c, _ = T.realise(at, k=3, cmap=cm)
+        s0 = fs.ForSys({0: T.frame_of(v, e, c)})
+    fsutil.call(s0.build_force_matrix, when=0, angle_limit=lim, circle_fit_method=fit)
+    fsutil.call(s0.solve_stress, when=0, allow_negatives=False)
+    viol, known, tags = [], [], ["after_other_objects"]
+    r = SC.solve_static(at, k=3, cmap=cm, fit=fit, method=solver, allow_negatives=False)
+    verdict = judge(at, cm, r, solver, fit, viol, known, tags)
+    for v_ in viol:
+        v_["what"] = "[after another object of the same tissue was solved with a strict angle limit in the same process] " + v_["what"]
+    return {"viol": viol, "known": known, "tags": sorted(set(tags)), "cls": "%s/%s/%s/%s/other" % (base, mobspec, fit, solver), "nontrivial": verdict, "outdom": not verdict}
+
+
 def build(tier, seed):
     if tier == "quick":
         return [Geometry(["v5x5", "v6x5"], 2, 8, seed),
@@ -420,7 +443,9 @@ def build(tier, seed):
                 MajorArcs("raw5x5j30p0", "16", 16),
                 ListSystem("live-translations", [{"base": b, "mob": m, "fit": f, "solver": sv, "tr": tr, "rot": 0.1234 + 0.37 * seed + 0.5 * i}
                                                  for b in ("v5x5", "v6x5") for m in (["m", 0.05, 0.02], ["mc", 0.12, 0.05]) for f in ("dlite", "taubinSVD")
-                                                 for sv in (None, "lsq_linear") for i, tr in enumerate([(3, -2), (-39.8, 18.8), (0.02, 0.01)])], eval_live)]
+                                                 for sv in (None, "lsq_linear") for i, tr in enumerate([(3, -2), (-39.8, 18.8), (0.02, 0.01)])], eval_live),
+                ListSystem("after-other-objects", [{"base": b, "mob": m, "fit": f, "solver": sv, "rot": 0.1234 + 0.37 * seed}
+                                                   for b in ("v5x5", "v6x5") for m in (["m", 0.05, 0.02], ["id"]) for f in ("dlite", "taubinSVD") for sv in (None, "lsq")], eval_after_others)]
     return [Geometry(["v5x5"], 3, 12, seed),
             Geometry(["v6x5", "v6x6", "v7x6p%d" % (seed + 1)], 2, 24, seed),
             SubTissues("v6x5", [(["m", 0.05, 0.02], 3, None, "dlite"), (["id"], 0, None, "dlite"), (["mc", 0.12, 0.05], 5, "lsq", "taubinSVD"),
@@ -428,4 +453,7 @@ def build(tier, seed):
             MajorArcs("raw5x5j30p0", "16", 16), MajorArcs("raw5x5j30p0", "16", 12),
             ListSystem("live-translations", [{"base": b, "mob": m, "fit": f, "solver": sv, "tr": tr, "rot": 0.1234 + 0.37 * seed + 0.5 * i}
                                              for b in ("v5x5", "v6x5", "v6x6") for m in (["m", 0.05, 0.02], ["mc", 0.12, 0.05], ["m", 0.01, 0.0]) for f in ("dlite", "taubinSVD")
-                                             for sv in (None, "lsq", "lsq_linear") for i, tr in enumerate([(3, -2), (-39.8, 18.8), (0.02, 0.01), (1e3, 0), (0, -1e2)])], eval_live)]
+                                             for sv in (None, "lsq", "lsq_linear") for i, tr in enumerate([(3, -2), (-39.8, 18.8), (0.02, 0.01), (1e3, 0), (0, -1e2)])], eval_live),
+            ListSystem("after-other-objects", [{"base": b, "mob": m, "fit": f, "solver": sv, "rot": 0.1234 + 0.37 * seed}
+                                               for b in ("v5x5", "v6x5", "v6x6") for m in (["m", 0.05, 0.02], ["id"], ["mc", 0.12, 0.05]) for f in ("dlite", "taubinSVD")
+                                               for sv in (None, "lsq", "lsq_linear")], eval_after_others)]
